@@ -352,7 +352,9 @@ pub fn run(rng: &mut Rng, n: usize, rep: &mut Report) {
                     rep.fail(format!("killed-bank-revived: lending_pool_configure_bank (settings frozen: {}) moved a bank KILLED BY BANKRUPTCY to state {} ({})", frozen, after as u8, if r.is_ok() { "instruction accepted" } else { "instruction refused" }));
                 }
                 let mut scratch = Report::default();
-                for (name, act) in [("deposit", Act::Deposit { u: 2, b: 0, amt: 1_000, upto: false }), ("withdraw", Act::Withdraw { u: 2, b: 0, amt: 1, all: false })] {
+                // (the last user of the world: worlds have two to four users)
+                let lu = s.users.len() - 1;
+                for (name, act) in [("deposit", Act::Deposit { u: lu, b: 0, amt: 1_000, upto: false }), ("withdraw", Act::Withdraw { u: lu, b: 0, amt: 1, all: false })] {
                     if matches!(s.step(&act, &mut scratch), Some(Ok(()))) {
                         rep.fail(format!("killed-bank-accepts: {} succeeded on a bank killed by bankruptcy after an admin re-configuration (settings frozen: {}, requested state {})", name, frozen, want as u8));
                     }
